@@ -133,6 +133,13 @@ func (b *BitMatrix) FlipAll() {
 	for i := 0; i < max; i++ {
 		b.bits[i] = ^b.bits[i]
 	}
+	// the unused bits beyond the width must stay clear
+	if shift := uint(b.width % 32); shift != 0 {
+		mask := uint32(1)<<shift - 1
+		for y := 1; y <= b.height; y++ {
+			b.bits[y*b.rowSize-1] &= mask
+		}
+	}
 }
 
 func (b *BitMatrix) Xor(mask *BitMatrix) error {
